@@ -30,7 +30,8 @@ OK_REPLIES = ["OK", "ok", "Ok.", "oK.", "OK.", "Ok"]
 BAD_REPLIES = ["OK!", "OK..", "Okay", "O K", "not ok", "OK, but rename x", "The block must mention \"banana\".", "line one\nline two",
                "ünïcödé \U0001F600", "{\"json\": true}", "back\\slash", "KO", "ok ok", "0", "No.", "OK?", "[OK]", "'OK'"]
 FAULTS = ["no-key", "empty-key", "refused", "400-json", "400-plain", "401-json", "401-plain", "403-json", "404-json", "404-plain", "422-json",
-          "200-invalid-json", "200-empty-body", "200-no-choices", "200-null-content", "200-no-message", "200-not-object", "truncated", "closed"]
+          "200-invalid-json", "200-empty-body", "200-no-choices", "200-null-content", "200-null-content-refusal", "200-null-content-refusal-ok", "200-empty-content",
+          "200-no-message", "200-not-object", "truncated", "closed"]
 COND_PIECES = ["must mention", "no \"quotes\"", "back\\slash", "tab\there", "é日本", "\U0001F600", "{json}", "a<b", "100%", "x=y", "semi;", "it's"]
 CONTENT_PIECES = ["alpha", "say \"hi\"", "c:\\path\\file", "tab\there", "naïve café", "日本語", "\U0001F468‍\U0001F469‍\U0001F467", "{\"k\": [1, 2]}",
                   "id: 42", "$x = 'y'", "<b>bold</b>", "a & b", "100%", "line", "\\n literal", "null", "end"]
@@ -138,6 +139,13 @@ def fault_action(kind):
         "200-no-choices": ("raw200", json.dumps({"id": "x", "object": "chat.completion", "created": 1, "model": "m", "choices": []})),
         "200-null-content": ("raw200", json.dumps({"id": "x", "object": "chat.completion", "created": 1, "model": "m",
                                                      "choices": [{"index": 0, "message": {"role": "assistant", "content": None}, "finish_reason": "stop"}]})),
+        # no content, but a `refusal` text next to it (a sentence, or the very word OK): still an empty reply
+        "200-null-content-refusal": ("raw200", json.dumps({"id": "x", "object": "chat.completion", "created": 1, "model": "m",
+                                                             "choices": [{"index": 0, "message": {"role": "assistant", "content": None, "refusal": "I cannot help with that."}, "finish_reason": "stop"}]})),
+        "200-null-content-refusal-ok": ("raw200", json.dumps({"id": "x", "object": "chat.completion", "created": 1, "model": "m",
+                                                                "choices": [{"index": 0, "message": {"role": "assistant", "content": None, "refusal": "OK"}, "finish_reason": "stop"}]})),
+        "200-empty-content": ("raw200", json.dumps({"id": "x", "object": "chat.completion", "created": 1, "model": "m",
+                                                      "choices": [{"index": 0, "message": {"role": "assistant", "content": None, "tool_calls": []}, "finish_reason": "tool_calls"}]})),
         "200-no-message": ("raw200", json.dumps({"id": "x", "object": "chat.completion", "created": 1, "model": "m",
                                                    "choices": [{"index": 0, "finish_reason": "stop"}]})),
         "200-not-object": ("raw200", "[1, 2, 3]"),
